@@ -10,6 +10,8 @@ CONSTANTS
   ChirpKeyByChannel = TRUE
   EagerOps <- N_EagerNames
   NumpyOps <- None_
+  ReaderPerBlock = FALSE
+  OverwriteTags <- None_
 VIEW View
 PROPERTY Lazy
 CHECK_DEADLOCK FALSE
